@@ -33,6 +33,12 @@ PROP = dict(
           "A second enumerated part: set(k1, <reference to an own entry>) for every Dic<String> / Map<int,String> of 1..13 entries (length == "
           "capacity at 3, 6, 12), aliased entry first / middle / last, k1 below all / just below / just above the aliased key / above all / "
           "an existing key, x the five call forms. "
+          "A third enumerated part: every constructor with degenerate arguments (Set from arrays of 0, 1, 2, 3 items with and without "
+          "duplicates, empty and 1-item initializer lists, Set(n)/HashMap(n)/HashDic(n) for n = 1, 2, 3, default construction, Map/Dic from "
+          "an empty initializer list and Map(k,v)) x the other operand empty or not x each op of the mix (incl. merge, union, intersection, "
+          "difference, containment and == with the empty container on either side, clone / copy / dup of it) x a tail that uses the "
+          "container again; the random generator also draws array lengths 0..2 and empty initializer lists. n = 0 for the sized "
+          "constructors is not generated (zero-bucket table on the unchanged tree). "
           "Non-trivial: hash kinds - the history overwrites or removes a key that sits in a bucket chain of >= 2 nodes (determined from the "
           "table before the op), or makes a table grow, or evaluates == on two equal containers that enumerate in different orders; ordered "
           "kinds - lookups on maps of size <= 3 that hit a present key and at least three different (size, insertion point) not-found "
